@@ -10,6 +10,9 @@ package vh
 
 import (
 	"fmt"
+	"github.com/semihalev/twig"
+	"os"
+	"path/filepath"
 	"reflect"
 	"sort"
 	"strings"
@@ -732,3 +735,64 @@ func TestC03Pointers(t *testing.T) {
 }
 
 func init() { reg("C03.ptr", checkC03Ptr) }
+
+// ---- arrangements whose outcome may hang on Go's map order -----------------------------------------------------
+
+type C03RepeatCase struct {
+	Which int `json:"which"`
+}
+
+// checkC03Repeat: each arrangement is built and rendered 40 times from scratch; every time the
+// output is the one the arrangement defines.
+func checkC03Repeat(c C03RepeatCase) error {
+	for round := 0; round < 40; round++ {
+		var got Res
+		var want string
+		switch c.Which % 4 {
+		case 0, 1:
+			// one template name in several search paths of one FileSystemLoader: the first path wins
+			root, err := os.MkdirTemp(workDir(), "c03-")
+			if err != nil {
+				return fmt.Errorf("harness: %v", err)
+			}
+			var paths []string
+			n := 2 + 3*(c.Which%2)
+			for i := 0; i < n; i++ {
+				d := filepath.Join(root, fmt.Sprintf("p%d", i))
+				os.MkdirAll(d, 0o755)
+				os.WriteFile(filepath.Join(d, "page.twig"), []byte(fmt.Sprintf("from p%d {{ 1 + 1 }}", i)), 0o644)
+				paths = append(paths, d)
+			}
+			e := twig.New()
+			e.RegisterLoader(twig.NewFileSystemLoader(paths))
+			got, want = render(e, "page.twig", nil), "from p0 2"
+			os.RemoveAll(root)
+		case 2:
+			// a with-list whose values read names the list also sets: they read the includer's
+			tm := map[string]string{"main": "{% include 'row' with {id: 7, key: 'row-' ~ id, k2: id ~ '/' ~ key, z: k2} %}", "row": "{{ id }}|{{ key }}|{{ k2 }}|{{ z }}"}
+			got, want = render(newEngine(tm), "main", map[string]interface{}{"id": 1, "key": "outer"}), "7|row-1|1/outer|"
+		default:
+			tm := map[string]string{"main": "{% include 'row' with {a: b, b: a, c: a ~ b} %}|{% include 'row' with {a: b, b: c, c: a} only %}", "row": "{{ a }}{{ b }}{{ c }}"}
+			got, want = render(newEngine(tm), "main", map[string]interface{}{"a": "A", "b": "B", "c": "C"}), "BAAB|BCA"
+		}
+		if got.Failed() || got.Out != want {
+			return fmt.Errorf("arrangement %d, round %d of 40 (each built from scratch): rendered %v, want %s", c.Which%4, round, got, q(want))
+		}
+	}
+	return nil
+}
+
+func TestC03Repeat(t *testing.T) {
+	r := NewRec(t, "C03", "exhaustive: 4 arrangements built and rendered 40 times from scratch each: one template name in 2 and in 5 search paths of a FileSystemLoader (the first path wins), include with-lists whose values read names that the list also sets (they read the including template's variables, in every order); expected text written out; all cases non-trivial")
+	defer r.Flush()
+	r.SetExhaustive()
+	for i := 0; i < 4; i++ {
+		c := C03RepeatCase{Which: i}
+		r.Case(fmt.Sprint(i), true, i)
+		if err := checkC03Repeat(c); err != nil {
+			r.FailEnum(t, "C03.repeat", c, err)
+		}
+	}
+}
+
+func init() { reg("C03.repeat", checkC03Repeat) }
